@@ -43,6 +43,14 @@ class _TO(BaseException):
     pass
 
 
+# calls that hit the watchdog, counted across the forked recorder processes; once a tree has shown this many
+# the remaining sessions are not recorded (the run has failed already and each further hang costs 5 s)
+import multiprocessing
+
+HANGS = multiprocessing.Value("i", 0)
+HANG_LIMIT = 48
+
+
 def _alarm(*_a: Any) -> None:
     raise _TO()
 
@@ -55,6 +63,8 @@ def call(fn: Any) -> Tuple[str, bool, Any]:
         v = fn()
         return "ok", True, v
     except _TO:
+        with HANGS.get_lock():
+            HANGS.value += 1
         return "timeout", True, None
     except RecursionError:
         return "foreign:RecursionError", True, None
@@ -88,8 +98,10 @@ def session(item: Tuple[str, Any]) -> Dict[str, Any]:
     from jsonpath import JSONPatch, JSONPointer, RelativeJSONPointer
 
     lang, s = item
+    if HANGS.value >= HANG_LIMIT:
+        return {"skipped": True, "lang": lang, "input": "", "events": []}
     if lang != "patch":
-        s = [{"EACUTE": "\u00e9", "SUPER2": "\u00b2", "HUGE": "9" * 4400}.get(x, x) for x in s]
+        s = [{"EACUTE": "\u00e9", "SUPER2": "\u00b2", "HUGE": "9" * 4400, "SQRUN": "'" + "\\" * 70, "DQRUN": '"' + "\\" * 70, "RERUN": "/" + "\\" * 70}.get(x, x) for x in s]
     ev: List[Dict[str, Any]] = []
 
     def log(name: str, fn: Any) -> Any:
@@ -159,8 +171,9 @@ def run(chk: Check, tier: str, seed: int) -> None:
         if isinstance(s, list):  # abnormal result from pmap (hang / crash of the interpreter)
             abnormal += 1
             chk.violation(f"{s[0][0]}|{it[0]}", {"lang": it[0], "input": it[1]}, s[0][2])
-        else:
+        elif not s.get("skipped"):
             clean.append(s)
+    chk.extra["sessions_not_recorded_after_repeated_hangs"] = sum(1 for s in sessions if isinstance(s, dict) and s.get("skipped"))
     for i, s in enumerate(clean):
         s["id"] = i + 1
     # ---- trace validation by TLC, sharded
